@@ -11,6 +11,13 @@ use serde_json::{json, Value};
 use std::str::FromStr;
 
 fn case_date(day: i64, acc: &mut Acc) {
+    case_date_inner(day, acc);
+    if (day as u64).wrapping_mul(0x9E37_79B9) % 64 == 0 {
+        crate::props::anchor::text(acc, "text forms (purity probe)", &|| json!({"kind": "date", "day": day}));
+    }
+}
+
+fn case_date_inner(day: i64, acc: &mut Acc) {
     acc.transitions += 4;
     acc.states += 1;
     let d = Date::from_timestamp((day - cal::DAYS_TO_1970) * 86_400);
@@ -82,6 +89,14 @@ fn case_time(nanos: u64, off: i32, acc: &mut Acc) {
 }
 
 fn case_dt(day: i64, nod: u64, off: i32, acc: &mut Acc) {
+    case_dt_inner(day, nod, off, acc);
+    let h = crate::props::anchor::hash(&[day as u64, nod, off as u64]);
+    if h % 16 == 0 {
+        crate::props::anchor::text(acc, "text forms (purity probe)", &|| json!({"kind": "dt", "day": day, "nod": nod.to_string(), "off": off}));
+    }
+}
+
+fn case_dt_inner(day: i64, nod: u64, off: i32, acc: &mut Acc) {
     let x = match dt_from_off(day, nod, off) {
         Some(x) => x,
         None => return,
